@@ -166,6 +166,13 @@ class Interp:
     def require(self, st: St, name: str, goal, props=None, meta=None) -> None:
         if not self.collect:
             return
+        if st.aux.get("nonfragment"):
+            # some hypothesis of this path (a shifted / reversed list, ...) lies outside the array-property fragment for which
+            # instantiation at the query's index terms is complete: a counter-model of the instantiated query may be spurious,
+            # so it is not reported as a failure (the obligation is then undecided unless it is proved)
+            meta = dict(meta or {})
+            meta["refutable"] = "0"
+            meta["nonfragment"] = str(st.aux["nonfragment"])
         ob = Obligation(f"{self.unit}#{name}" if self.unit else name, list(st.pc), goal, props or self.props_default, "/".join(st.tags), meta)
         self.obligations.append(ob)
 
@@ -639,6 +646,16 @@ class Interp:
             u, n = key.upper.t, c.n
             m = z3.If(u >= 0, z3.If(u < n, u, n), z3.If(n + u > 0, n + u, 0))
             return [(st, SeqV(m, list(c.arrs), c.layout, mutable=c.mutable))]
+        if isinstance(c, SeqV) and isinstance(key, SliceV) and key.upper is None and key.step is None and isinstance(key.lower, IntV):
+            # seq[a:]  (Python: start = min(a, n) for a >= 0, max(n + a, 0) for a < 0); a new list shifted by `start`
+            a, n = key.lower.t, c.n
+            start = z3.If(a >= 0, z3.If(a < n, a, n), z3.If(n + a > 0, n + a, 0))
+            new = [fresh("sliced", x.sort()) for x in c.arrs]
+            j = z3.Int("j!slice")
+            for a_old, a_new in zip(c.arrs, new):
+                st.assume(z3.ForAll([j], z3.Implies(z3.And(0 <= j, j < n - start), z3.Select(a_new, j) == z3.Select(a_old, j + start))))
+            st.aux["nonfragment"] = "seq[a:] (shifted copy)"
+            return [(st, SeqV(n - start, new, c.layout, mutable=c.mutable))]
         if isinstance(c, KwV) and isinstance(key, StrV) and key.lit is not None:
             ks = key.lit
             if ks in c.d:
